@@ -24,7 +24,7 @@ CLAIMED = {
         "error, not silently rounded: defect F12, fixed); the Bin whose address a getter/setter requests carries every index of the "
         "piece asked for (segment, view or axial position, TOF index) in its own slot, and a getter builds the piece it returns from "
         "the same indices; every whole-data operation of ProjData (fill, sum, extrema, norms, xapyb/sapyb, arithmetic) requests, inside its "
-        "loop over the segments, the segment of the TOF bin of an enclosing loop over all TOF bins. Value round trips, byte order, number-type conversion and header values are NOT decided.",
+        "loop over the segments, the segment of the TOF bin of an enclosing loop over all TOF bins; in the projection-data header the scale factor and the bed positions are written with max_digits10 digits (defect F35, fixed), values of list-valued keys are in the reader's list and information-losing formatting changes of the header stream are put back. Value round trips, byte order, number-type conversion and the other header values are NOT decided.",
         technique="static analysis: must-facts dataflow over clang CFG (bounds), symbolic layout algebra on the address expression, "
         "must-pass-through (flush), resolved-callee provenance",
     ),
